@@ -75,7 +75,18 @@ theorem peerOf_snoc (t : List Obs) (o : Obs) : peerOf (t ++ [o]) = peerStep (pee
 theorem peerOf_snoc2 (t : List Obs) (o o' : Obs) : peerOf (t ++ [o, o']) = peerStep (peerStep (peerOf t) o) o' := by
   simp [peerOf, List.foldl_append]
 
-/-- what relates a live MOSN connection to the peer's books -/
+theorem tracked_lt (s : St) (i : Nat) (h : tracked s i = true) : i < s.count := by
+  simp only [tracked, Bool.and_eq_true, decide_eq_true_eq] at h; exact h.1
+
+theorem tracked_of (s : St) (i : Nat) (hi : i < s.count) (hr : 0 < (s.strm i).rem) : tracked s i = true := by
+  simp only [tracked, hi, decide_true, Bool.true_and, Bool.not_eq_true', Bool.and_eq_false_iff]
+  right; simp; omega
+
+theorem tracked_congr (s s' : St) (j : Nat) (h1 : s'.side = s.side) (h2 : s'.count = s.count)
+    (h3 : (s'.strm j).rem = (s.strm j).rem) : tracked s' j = tracked s j := by
+  simp only [tracked, h1, h2, h3]
+
+/-- what relates a live MOSN connection to the peer's books (for the streams still in the stream table) -/
 structure Live (s : St) (p : Peer) : Prop where
   count : p.count = s.count
   init : p.init = s.init
@@ -84,7 +95,7 @@ structure Live (s : St) (p : Peer) : Prop where
   cn_range : -2147483648 ≤ s.cn ∧ s.cn ≤ 2147483647
   init_range : 0 ≤ s.init ∧ s.init ≤ 2147483647
   mf_range : 1 ≤ s.maxFrame ∧ s.maxFrame ≤ 2147483647
-  strm : ∀ i, i < s.count → (s.strm i).n ≤ p.w i ∧ -2147483648 ≤ (s.strm i).n ∧ (s.strm i).n ≤ 2147483647 ∧
+  strm : ∀ i, tracked s i = true → (s.strm i).n ≤ p.w i ∧ -2147483648 ≤ (s.strm i).n ∧ (s.strm i).n ≤ 2147483647 ∧
     s.init - 2147483647 ≤ (s.strm i).n
 
 /-- the invariant of every reachable state -/
@@ -96,7 +107,7 @@ structure Inv (s : St) : Prop where
 theorem inv_initial (side : Side) : Inv (St.initial side) := by
   cases side <;> refine ⟨by decide, rfl, fun _ => ?_⟩ <;>
     refine ⟨rfl, by decide, by decide, by decide, by decide, by decide, by decide, ?_⟩ <;>
-    intro i hi <;> simp [St.initial] at hi
+    intro i hi <;> have := tracked_lt _ _ hi <;> simp [St.initial] at this
 
 theorem sendStep_fire (s : St) (i : Nat) (h : Inv s) (hc : s.closed = false) (hi : i < s.count)
     (hr : 0 < (s.strm i).rem) (ha : 0 < min (s.strm i).n s.cn) :
@@ -105,7 +116,7 @@ theorem sendStep_fire (s : St) (i : Nat) (h : Inv s) (hc : s.closed = false) (hi
                             trace := s.trace ++ [Obs.data i (splitFrames t.toNat)] } := by
   intro t
   have L := h.live hc
-  obtain ⟨h1, h2, h3, h4⟩ := L.strm i hi
+  obtain ⟨h1, h2, h3, h4⟩ := L.strm i (tracked_of s i hi hr)
   have hcr := L.cn_range
   have hmf := L.mf_range
   have hts : takeAmount s.side (min (s.strm i).n s.cn) ((s.strm i).rem : Int) s.maxFrame = t :=
@@ -151,7 +162,7 @@ theorem inv_send (s : St) (i : Nat) (h : Inv s) : Inv (sendStep s i) := by
     have hr : 0 < (s.strm i).rem := by omega
     have ha : 0 < min (s.strm i).n s.cn := by omega
     have L := h.live hc
-    obtain ⟨h1, h2, h3, h4⟩ := L.strm i hi
+    obtain ⟨h1, h2, h3, h4⟩ := L.strm i (tracked_of s i hi hr)
     have hcr := L.cn_range
     have hmf := L.mf_range
     rw [sendStep_fire s i h hc hi hr ha]
@@ -172,10 +183,11 @@ theorem inv_send (s : St) (i : Nat) (h : Inv s) : Inv (sendStep s i) := by
       · have := L.cn_le; simp only []; omega
       · simp only []; omega
       · intro j hj
-        simp only [upd, updW]
         by_cases hji : j = i
-        · subst hji; simp only [if_true]; have := L.init_range; omega
-        · simp only [hji, if_false]; exact L.strm j hj
+        · subst hji; simp only [upd, updW, if_true]; have := L.init_range; omega
+        · have htr : tracked s j = true := by
+            rw [← hj]; symm; apply tracked_congr <;> simp [upd, hji]
+          simp only [upd, updW, hji, if_false]; exact L.strm j htr
 
 theorem inv_open (s : St) (len : Nat) (h : Inv s) : Inv (step s (.openStream len)) := by
   simp only [step]
@@ -195,11 +207,16 @@ theorem inv_open (s : St) (len : Nat) (h : Inv s) : Inv (step s (.openStream len
   · simp only [peerOf_snoc, peerStep, hadd]
     refine ⟨by rw [L.count], L.init, L.maxF, L.cn_le, L.cn_range, L.init_range, L.mf_range, ?_⟩
     intro j hj
-    change j < s.count + 1 at hj
-    simp only [upd, updW, L.count]
     by_cases hji : j = s.count
-    · simp only [hji, if_true, L.init]; omega
-    · simp only [hji, if_false]; exact L.strm j (by omega)
+    · simp only [upd, updW, L.count, hji, if_true, L.init]; omega
+    · have hlt := tracked_lt _ _ hj
+      change j < s.count + 1 at hlt
+      have htr : tracked s j = true := by
+        rw [← hj]
+        simp only [tracked, upd, hji, if_false]
+        congr 1
+        simp; omega
+      simp only [upd, updW, L.count, hji, if_false]; exact L.strm j htr
 
 theorem inv_wuStream (s : St) (i inc : Nat) (hw : (Label.wuStream i inc).wf = true) (h : Inv s) :
     Inv (step s (.wuStream i inc)) := by
@@ -216,32 +233,47 @@ theorem inv_wuStream (s : St) (i inc : Nat) (hw : (Label.wuStream i inc).wf = tr
     refine ⟨?_, rfl, fun _ => ?_⟩
     · simp only [peerOf_snoc, peerStep, hpi, if_false]; exact h.ok
     · simp only [peerOf_snoc, peerStep, hpi, if_false]
-      exact ⟨L.count, L.init, L.maxF, L.cn_le, L.cn_range, L.init_range, L.mf_range, L.strm⟩
+      refine ⟨L.count, L.init, L.maxF, L.cn_le, L.cn_range, L.init_range, L.mf_range, ?_⟩
+      intro j hj
+      exact L.strm j (by rw [← hj]; symm; apply tracked_congr <;> rfl)
   · simp only [hi, if_false]
     have hi' : i < s.count := by omega
     have hpi : i < (peerOf s.trace).count := by rw [L.count]; omega
-    obtain ⟨h1, h2, h3, h4⟩ := L.strm i hi'
-    have hwi : wrap32 (inc : Int) = inc := wrap32_id _ (by omega)
-    have A := add_spec (s.strm i).n inc ⟨h2, h3⟩ (by omega)
-    rw [hwi]
-    cases hr : (add (s.strm i).n (inc : Int)).2
-    · -- refused: connection error
-      simp only [Bool.false_eq_true, if_false]
-      refine ⟨?_, rfl, fun hcl => by simp at hcl⟩
-      simp only [peerOf_snoc2, peerStep, hpi, if_true]; exact h.ok
-    · simp only [if_true]
-      have hv := A.2.1 hr
-      have hb := A.1.1 hr
+    by_cases htr : tracked s i = true
+    · simp only [htr, Bool.not_true, Bool.false_eq_true, if_false]
+      obtain ⟨h1, h2, h3, h4⟩ := L.strm i htr
+      have hwi : wrap32 (inc : Int) = inc := wrap32_id _ (by omega)
+      have A := add_spec (s.strm i).n inc ⟨h2, h3⟩ (by omega)
+      rw [hwi]
+      cases hr : (add (s.strm i).n (inc : Int)).2
+      · -- refused: connection error
+        simp only [Bool.false_eq_true, if_false]
+        refine ⟨?_, rfl, fun hcl => by simp at hcl⟩
+        simp only [peerOf_snoc2, peerStep, hpi, if_true]; exact h.ok
+      · simp only [if_true]
+        have hv := A.2.1 hr
+        have hb := A.1.1 hr
+        refine ⟨?_, rfl, fun _ => ?_⟩
+        · simp only [peerOf_snoc, peerStep, hpi, if_true]; exact h.ok
+        · simp only [peerOf_snoc, peerStep, hpi, if_true]
+          refine ⟨L.count, L.init, L.maxF, L.cn_le, L.cn_range, L.init_range, L.mf_range, ?_⟩
+          intro j hj
+          by_cases hji : j = i
+          · subst hji; simp only [upd, updW, if_true, hv]; omega
+          · have htj : tracked s j = true := by
+              rw [← hj]; symm; apply tracked_congr <;> simp [upd, hji]
+            simp only [upd, updW, hji, if_false]; exact L.strm j htj
+    · have htr' : tracked s i = false := by simpa using htr
+      simp only [htr', Bool.not_false, if_true]
       refine ⟨?_, rfl, fun _ => ?_⟩
       · simp only [peerOf_snoc, peerStep, hpi, if_true]; exact h.ok
       · simp only [peerOf_snoc, peerStep, hpi, if_true]
         refine ⟨L.count, L.init, L.maxF, L.cn_le, L.cn_range, L.init_range, L.mf_range, ?_⟩
         intro j hj
-        change j < s.count at hj
-        simp only [upd, updW]
-        by_cases hji : j = i
-        · subst hji; simp only [if_true, hv]; omega
-        · simp only [hji, if_false]; exact L.strm j hj
+        have htj : tracked s j = true := by
+          rw [← hj]; symm; apply tracked_congr <;> rfl
+        have hji : j ≠ i := by intro e; subst e; rw [htr'] at htj; exact Bool.noConfusion htj
+        simp only [updW, hji, if_false]; exact L.strm j htj
 
 theorem inv_wuConn (s : St) (inc : Nat) (hw : (Label.wuConn inc).wf = true) (h : Inv s) :
     Inv (step s (.wuConn inc)) := by
@@ -265,9 +297,11 @@ theorem inv_wuConn (s : St) (inc : Nat) (hw : (Label.wuConn inc).wf = true) (h :
     refine ⟨?_, rfl, fun _ => ?_⟩
     · simp only [peerOf_snoc, peerStep]; exact h.ok
     · simp only [peerOf_snoc, peerStep]
-      refine ⟨L.count, L.init, L.maxF, ?_, ?_, L.init_range, L.mf_range, L.strm⟩
+      refine ⟨L.count, L.init, L.maxF, ?_, ?_, L.init_range, L.mf_range, ?_⟩
       · have := L.cn_le; simp only [hv]; omega
       · simp only [hv]; omega
+      · intro j hj
+        exact L.strm j (by rw [← hj]; symm; apply tracked_congr <;> rfl)
 
 theorem inv_setInit (s : St) (v : Nat) (hw : (Label.setInit v).wf = true) (h : Inv s) :
     Inv (step s (.setInit v)) := by
@@ -289,7 +323,7 @@ theorem inv_setInit (s : St) (v : Nat) (hw : (Label.setInit v).wf = true) (h : I
     rw [wrap32_id (v : Int) (by omega), wrap32_id s.init (by omega), wrap32_id _ (by omega)]
   rw [hd]
   -- the new windows satisfy the relation whether or not an individual add was refused
-  have key : ∀ j, j < s.count →
+  have key : ∀ j, tracked s j = true →
       (add (s.strm j).n ((v : Int) - s.init)).1 ≤ (peerOf s.trace).w j + ((v : Int) - (peerOf s.trace).init) ∧
       -2147483648 ≤ (add (s.strm j).n ((v : Int) - s.init)).1 ∧ (add (s.strm j).n ((v : Int) - s.init)).1 ≤ 2147483647 ∧
       (v : Int) - 2147483647 ≤ (add (s.strm j).n ((v : Int) - s.init)).1 := by
@@ -305,29 +339,31 @@ theorem inv_setInit (s : St) (v : Nat) (hw : (Label.setInit v).wf = true) (h : I
     · have hv2 := A.2.1 hr
       have hb := A.1.1 hr
       rw [hv2]; omega
-  have live' : ∀ s' : St, s'.cn = s.cn → s'.init = (v : Int) → s'.maxFrame = s.maxFrame → s'.count = s.count →
-      s'.strm = (fun j => if j < s.count then { s.strm j with n := (add (s.strm j).n ((v : Int) - s.init)).1 } else s.strm j) →
+  have live' : ∀ s' : St, s'.side = s.side → s'.cn = s.cn → s'.init = (v : Int) → s'.maxFrame = s.maxFrame → s'.count = s.count →
+      s'.strm = (fun j => if tracked s j then { s.strm j with n := (add (s.strm j).n ((v : Int) - s.init)).1 } else s.strm j) →
       Live s' (peerOf (s.trace ++ [Obs.sInit v])) := by
-    intro s' e1 e2 e3 e4 e5
+    intro s' e0 e1 e2 e3 e4 e5
     simp only [peerOf_snoc, peerStep]
     refine ⟨by rw [e4]; exact L.count, e2.symm, by rw [e3]; exact L.maxF, by rw [e1]; exact L.cn_le, by rw [e1]; exact L.cn_range,
       by rw [e2]; exact ⟨Int.natCast_nonneg v, hv'⟩, by rw [e3]; exact L.mf_range, ?_⟩
     intro j hj
-    rw [e4] at hj
-    have hpj : j < (peerOf s.trace).count := by rw [L.count]; exact hj
+    have htj : tracked s j = true := by
+      rw [← hj]; symm; apply tracked_congr _ _ _ e0 e4
+      rw [e5]; simp only []; split <;> rfl
+    have hpj : j < (peerOf s.trace).count := by rw [L.count]; exact tracked_lt _ _ htj
     rw [e5, e2]
-    simp only [hj, hpj, if_true]
-    exact key j hj
+    simp only [htj, hpj, if_true]
+    exact key j htj
   have ok' : (peerOf (s.trace ++ [Obs.sInit v])).ok = true := by
     simp only [peerOf_snoc, peerStep]; exact h.ok
   cases hside : s.side
   · simp only []
-    exact ⟨ok', rfl, fun _ => live' _ rfl rfl rfl rfl rfl⟩
+    exact ⟨ok', rfl, fun _ => live' _ hside.symm rfl rfl rfl rfl rfl⟩
   · simp only []
     split
     · refine ⟨?_, rfl, fun hcl => by simp at hcl⟩
       simp only [peerOf_snoc2, peerStep]; exact h.ok
-    · exact ⟨ok', rfl, fun _ => live' _ rfl rfl rfl rfl rfl⟩
+    · exact ⟨ok', rfl, fun _ => live' _ hside.symm rfl rfl rfl rfl rfl⟩
 
 theorem inv_setMaxFrame (s : St) (v : Nat) (hw : (Label.setMaxFrame v).wf = true) (h : Inv s) :
     Inv (step s (.setMaxFrame v)) := by
@@ -343,7 +379,9 @@ theorem inv_setMaxFrame (s : St) (v : Nat) (hw : (Label.setMaxFrame v).wf = true
     refine ⟨?_, rfl, fun _ => ?_⟩
     · simp only [peerOf_snoc, peerStep]; exact h.ok
     · simp only [peerOf_snoc, peerStep]
-      exact ⟨L.count, L.init, rfl, L.cn_le, L.cn_range, L.init_range, ⟨by show (1 : Int) ≤ (v : Int); omega, by show (v : Int) ≤ 2147483647; omega⟩, L.strm⟩
+      refine ⟨L.count, L.init, rfl, L.cn_le, L.cn_range, L.init_range, ⟨by show (1 : Int) ≤ (v : Int); omega, by show (v : Int) ≤ 2147483647; omega⟩, ?_⟩
+      intro j hj
+      exact L.strm j (by rw [← hj]; symm; apply tracked_congr <;> simp [hside])
   · simp only []
     split
     · refine ⟨?_, rfl, fun hcl => by simp at hcl⟩
@@ -352,7 +390,9 @@ theorem inv_setMaxFrame (s : St) (v : Nat) (hw : (Label.setMaxFrame v).wf = true
       · simp only [peerOf_snoc, peerStep]; exact h.ok
       · simp only [peerOf_snoc, peerStep]
         have hwv : wrap32 (v : Int) = v := wrap32_id _ (by omega)
-        exact ⟨L.count, L.init, hwv.symm, L.cn_le, L.cn_range, L.init_range, ⟨by show (1 : Int) ≤ wrap32 (v : Int); omega, by show wrap32 (v : Int) ≤ 2147483647; omega⟩, L.strm⟩
+        refine ⟨L.count, L.init, hwv.symm, L.cn_le, L.cn_range, L.init_range, ⟨by show (1 : Int) ≤ wrap32 (v : Int); omega, by show wrap32 (v : Int) ≤ 2147483647; omega⟩, ?_⟩
+        intro j hj
+        exact L.strm j (by rw [← hj]; symm; apply tracked_congr <;> simp [hside])
 
 theorem inv_step (s : St) (l : Label) (hw : l.wf = true) (h : Inv s) : Inv (step s l) := by
   cases l with
@@ -410,15 +450,16 @@ theorem pump_completes (i : Nat) : ∀ (k : Nat) (s : St), Inv s → s.closed = 
       simp only [sentOn_append, sentOn, upd, if_true, sum_split]
       omega
 
+
 /-- against a peer that keeps its own windows within 2^31-1 (RFC 7540 §6.9.1) MOSN's windows *equal* the peer's
-books and the connection is never torn down -/
+books (for every stream still in the stream table) and the connection is never torn down -/
 def Exact (s : St) : Prop :=
   (peerOf s.trace).conformant = true →
-    s.closed = false ∧ s.cn = (peerOf s.trace).connW ∧ ∀ i, i < s.count → (s.strm i).n = (peerOf s.trace).w i
+    s.closed = false ∧ s.cn = (peerOf s.trace).connW ∧ ∀ i, tracked s i = true → (s.strm i).n = (peerOf s.trace).w i
 
 theorem exact_initial (side : Side) : Exact (St.initial side) := by
   intro _
-  cases side <;> refine ⟨rfl, by decide, ?_⟩ <;> intro i hi <;> simp [St.initial] at hi
+  cases side <;> refine ⟨rfl, by decide, ?_⟩ <;> intro i hi <;> have := tracked_lt _ _ hi <;> simp [St.initial] at this
 
 theorem exact_send (s : St) (i : Nat) (h : Inv s) (e : Exact s) : Exact (sendStep s i) := by
   by_cases hidle : s.closed = true ∨ s.count ≤ i ∨ (s.strm i).rem = 0 ∨ min (s.strm i).n s.cn ≤ 0
@@ -436,11 +477,11 @@ theorem exact_send (s : St) (i : Nat) (h : Inv s) (e : Exact s) : Exact (sendSte
     obtain ⟨_, e2, e3⟩ := e hconf
     refine ⟨hc, by rw [e2], ?_⟩
     intro j hj
-    change j < s.count at hj
-    simp only [upd, updW]
     by_cases hji : j = i
-    · subst hji; simp only [if_true]; rw [e3 j hj]
-    · simp only [hji, if_false]; exact e3 j hj
+    · subst hji; simp only [upd, updW, if_true]; rw [e3 j (tracked_of s j hi hr)]
+    · have htj : tracked s j = true := by
+        rw [← hj]; symm; apply tracked_congr <;> simp [upd, hji]
+      simp only [upd, updW, hji, if_false]; exact e3 j htj
 
 theorem exact_open (s : St) (len : Nat) (h : Inv s) (e : Exact s) : Exact (step s (.openStream len)) := by
   simp only [step]
@@ -460,11 +501,16 @@ theorem exact_open (s : St) (len : Nat) (h : Inv s) (e : Exact s) : Exact (step 
   obtain ⟨_, e2, e3⟩ := e hconf
   refine ⟨trivial, e2, ?_⟩
   intro j hj
-  change j < s.count + 1 at hj
-  simp only [upd, updW, L.count]
   by_cases hji : j = s.count
-  · simp only [hji, if_true, L.init]
-  · simp only [hji, if_false]; exact e3 j (by omega)
+  · simp only [upd, updW, L.count, hji, if_true, L.init]
+  · have hlt := tracked_lt _ _ hj
+    change j < s.count + 1 at hlt
+    have htr : tracked s j = true := by
+      rw [← hj]
+      simp only [tracked, upd, hji, if_false]
+      congr 1
+      simp; omega
+    simp only [upd, updW, L.count, hji, if_false]; exact e3 j htr
 
 theorem exact_wuStream (s : St) (i inc : Nat) (hw : (Label.wuStream i inc).wf = true) (h : Inv s) (e : Exact s) :
     Exact (step s (.wuStream i inc)) := by
@@ -479,37 +525,49 @@ theorem exact_wuStream (s : St) (i inc : Nat) (hw : (Label.wuStream i inc).wf = 
   · simp only [hi, if_true]
     have hpi : ¬ i < (peerOf s.trace).count := by rw [L.count]; omega
     intro hconf
-    simp only [peerOf_snoc, peerStep, hpi, if_false, Bool.and_eq_true] at hconf ⊢
-    obtain ⟨_, e2, e3⟩ := e hconf.1.1
-    exact ⟨trivial, e2, e3⟩
+    simp only [peerOf_snoc, peerStep, hpi, if_false] at hconf
+    exact absurd hconf (by simp)
   · simp only [hi, if_false]
     have hi' : i < s.count := by omega
     have hpi : i < (peerOf s.trace).count := by rw [L.count]; omega
-    obtain ⟨h1, h2, h3, h4⟩ := L.strm i hi'
-    have hwi : wrap32 (inc : Int) = inc := wrap32_id _ (by omega)
-    have A := add_spec (s.strm i).n inc ⟨h2, h3⟩ (by omega)
-    rw [hwi]
-    cases hr : (add (s.strm i).n (inc : Int)).2
-    · simp only [Bool.false_eq_true, if_false]
-      intro hconf
-      simp only [peerOf_snoc2, peerStep, hpi, if_true, Bool.and_eq_true, decide_eq_true_eq] at hconf
-      obtain ⟨_, e2, e3⟩ := e hconf.1.1
-      have := e3 i hi'
-      have hb : ¬ (-2147483648 ≤ (s.strm i).n + (inc : Int) ∧ (s.strm i).n + (inc : Int) ≤ 2147483647) := by
-        intro hh; have := A.1.2 hh; simp [hr] at this
-      omega
-    · simp only [if_true]
-      have hv := A.2.1 hr
+    by_cases htr : tracked s i = true
+    · simp only [htr, Bool.not_true, Bool.false_eq_true, if_false]
+      obtain ⟨h1, h2, h3, h4⟩ := L.strm i htr
+      have hwi : wrap32 (inc : Int) = inc := wrap32_id _ (by omega)
+      have A := add_spec (s.strm i).n inc ⟨h2, h3⟩ (by omega)
+      rw [hwi]
+      cases hr : (add (s.strm i).n (inc : Int)).2
+      · simp only [Bool.false_eq_true, if_false]
+        intro hconf
+        simp only [peerOf_snoc2, peerStep, hpi, if_true, Bool.and_eq_true, decide_eq_true_eq] at hconf
+        obtain ⟨_, e2, e3⟩ := e hconf.1.1
+        have := e3 i htr
+        have hb : ¬ (-2147483648 ≤ (s.strm i).n + (inc : Int) ∧ (s.strm i).n + (inc : Int) ≤ 2147483647) := by
+          intro hh; have := A.1.2 hh; simp [hr] at this
+        omega
+      · simp only [if_true]
+        have hv := A.2.1 hr
+        intro hconf
+        simp only [peerOf_snoc, peerStep, hpi, if_true, Bool.and_eq_true, decide_eq_true_eq] at hconf ⊢
+        obtain ⟨_, e2, e3⟩ := e hconf.1.1
+        refine ⟨trivial, e2, ?_⟩
+        intro j hj
+        by_cases hji : j = i
+        · subst hji; simp only [upd, updW, if_true, hv]; rw [e3 j htr]
+        · have htj : tracked s j = true := by
+            rw [← hj]; symm; apply tracked_congr <;> simp [upd, hji]
+          simp only [upd, updW, hji, if_false]; exact e3 j htj
+    · have htr' : tracked s i = false := by simpa using htr
+      simp only [htr', Bool.not_false, if_true]
       intro hconf
       simp only [peerOf_snoc, peerStep, hpi, if_true, Bool.and_eq_true, decide_eq_true_eq] at hconf ⊢
       obtain ⟨_, e2, e3⟩ := e hconf.1.1
       refine ⟨trivial, e2, ?_⟩
       intro j hj
-      change j < s.count at hj
-      simp only [upd, updW]
-      by_cases hji : j = i
-      · subst hji; simp only [if_true, hv]; rw [e3 j hj]
-      · simp only [hji, if_false]; exact e3 j hj
+      have htj : tracked s j = true := by
+        rw [← hj]; symm; apply tracked_congr <;> rfl
+      have hji : j ≠ i := by intro e; subst e; rw [htr'] at htj; exact Bool.noConfusion htj
+      simp only [updW, hji, if_false]; exact e3 j htj
 
 theorem exact_wuConn (s : St) (inc : Nat) (hw : (Label.wuConn inc).wf = true) (h : Inv s) (e : Exact s) :
     Exact (step s (.wuConn inc)) := by
@@ -537,7 +595,9 @@ theorem exact_wuConn (s : St) (inc : Nat) (hw : (Label.wuConn inc).wf = true) (h
     intro hconf
     simp only [peerOf_snoc, peerStep, Bool.and_eq_true, decide_eq_true_eq] at hconf ⊢
     obtain ⟨_, e2, e3⟩ := e hconf.1.1
-    exact ⟨trivial, by rw [hv, e2], e3⟩
+    refine ⟨trivial, by rw [hv, e2], ?_⟩
+    intro j hj
+    exact e3 j (by rw [← hj]; symm; apply tracked_congr <;> rfl)
 
 theorem exact_setInit (s : St) (v : Nat) (hw : (Label.setInit v).wf = true) (h : Inv s) (e : Exact s) :
     Exact (step s (.setInit v)) := by
@@ -560,11 +620,11 @@ theorem exact_setInit (s : St) (v : Nat) (hw : (Label.setInit v).wf = true) (h :
   have hd : wrap32 (wrap32 (v : Int) - wrap32 s.init) = (v : Int) - s.init := by
     rw [wrap32_id (v : Int) (by omega), wrap32_id s.init (by omega), wrap32_id _ (by omega)]
   rw [hd]
-  -- under conformance every add is accepted and yields the peer's new window
+  -- under conformance every add on a tracked stream is accepted and yields the peer's new window
   have key : (peerOf (s.trace ++ [Obs.sInit v])).conformant = true →
-      (peerOf s.trace).conformant = true ∧ ∀ j, j < s.count →
+      (peerOf s.trace).conformant = true ∧ ∀ j, tracked s j = true →
         (add (s.strm j).n ((v : Int) - s.init)).2 = true ∧
-        ((peerOf s.trace).conformant = true → (add (s.strm j).n ((v : Int) - s.init)).1 = (peerOf s.trace).w j + ((v : Int) - (peerOf s.trace).init)) := by
+        (add (s.strm j).n ((v : Int) - s.init)).1 = (peerOf s.trace).w j + ((v : Int) - (peerOf s.trace).init) := by
     intro hconf
     simp only [peerOf_snoc, peerStep, Bool.and_eq_true, decide_eq_true_eq, List.all_eq_true, List.mem_range] at hconf
     refine ⟨hconf.1.1, ?_⟩
@@ -572,29 +632,32 @@ theorem exact_setInit (s : St) (v : Nat) (hw : (Label.setInit v).wf = true) (h :
     obtain ⟨_, _, e3⟩ := e hconf.1.1
     obtain ⟨h1, h2, h3, h4⟩ := L.strm j hj
     have A := add_spec (s.strm j).n ((v : Int) - s.init) ⟨h2, h3⟩ (by omega)
-    have hwj := hconf.2 j (by rw [L.count]; exact hj)
+    have hwj := hconf.2 j (by rw [L.count]; exact tracked_lt _ _ hj)
     rw [L.init, ← e3 j hj] at hwj
     have hacc : (add (s.strm j).n ((v : Int) - s.init)).2 = true := A.1.2 (by omega)
-    refine ⟨hacc, fun _ => ?_⟩
+    refine ⟨hacc, ?_⟩
     rw [A.2.1 hacc, L.init, e3 j hj]
-  have concl : ∀ s' : St, s'.closed = false → s'.cn = s.cn → s'.count = s.count → s'.trace = s.trace ++ [Obs.sInit v] →
-      s'.strm = (fun j => if j < s.count then { s.strm j with n := (add (s.strm j).n ((v : Int) - s.init)).1 } else s.strm j) →
+  have concl : ∀ s' : St, s'.closed = false → s'.side = s.side → s'.cn = s.cn → s'.count = s.count →
+      s'.trace = s.trace ++ [Obs.sInit v] →
+      s'.strm = (fun j => if tracked s j then { s.strm j with n := (add (s.strm j).n ((v : Int) - s.init)).1 } else s.strm j) →
       Exact s' := by
-    intro s' c1 c2 c3 c4 c5 hconf
+    intro s' c1 c0 c2 c3 c4 c5 hconf
     rw [c4] at hconf ⊢
     obtain ⟨hc0, hk⟩ := key hconf
     obtain ⟨_, e2, _⟩ := e hc0
     simp only [peerOf_snoc, peerStep]
     refine ⟨c1, by rw [c2, e2], ?_⟩
     intro j hj
-    rw [c3] at hj
-    have hpj : j < (peerOf s.trace).count := by rw [L.count]; exact hj
+    have htj : tracked s j = true := by
+      rw [← hj]; symm; apply tracked_congr _ _ _ c0 c3
+      rw [c5]; simp only []; split <;> rfl
+    have hpj : j < (peerOf s.trace).count := by rw [L.count]; exact tracked_lt _ _ htj
     rw [c5]
-    simp only [hj, hpj, if_true]
-    exact (hk j hj).2 hc0
+    simp only [htj, hpj, if_true]
+    exact (hk j htj).2
   cases hside : s.side
   · simp only []
-    exact concl _ rfl rfl rfl rfl rfl
+    exact concl _ rfl hside.symm rfl rfl rfl rfl
   · simp only []
     split
     · rename_i hfail
@@ -604,11 +667,11 @@ theorem exact_setInit (s : St) (v : Nat) (hw : (Label.setInit v).wf = true) (h :
       have hconf' : (peerOf (s.trace ++ [Obs.sInit v])).conformant = true := by
         simp only [peerOf_snoc, peerStep]; exact hconf
       obtain ⟨_, hk⟩ := key hconf'
-      simp only [List.any_eq_true, List.mem_range, Bool.not_eq_true'] at hfail
-      obtain ⟨j, hj, hf⟩ := hfail
-      have := (hk j hj).1
+      simp only [List.any_eq_true, List.mem_range, Bool.and_eq_true, Bool.not_eq_true'] at hfail
+      obtain ⟨j, hj, htj, hf⟩ := hfail
+      have := (hk j htj).1
       simp [hf] at this
-    · exact concl _ rfl rfl rfl rfl rfl
+    · exact concl _ rfl hside.symm rfl rfl rfl rfl
 
 theorem exact_setMaxFrame (s : St) (v : Nat) (h : Inv s) (e : Exact s) :
     Exact (step s (.setMaxFrame v)) := by
@@ -622,7 +685,9 @@ theorem exact_setMaxFrame (s : St) (v : Nat) (h : Inv s) (e : Exact s) :
     intro hconf
     simp only [peerOf_snoc, peerStep, Bool.and_eq_true, decide_eq_true_eq] at hconf ⊢
     obtain ⟨_, e2, e3⟩ := e hconf.1.1
-    exact ⟨trivial, e2, e3⟩
+    refine ⟨trivial, e2, ?_⟩
+    intro j hj
+    exact e3 j (by rw [← hj]; symm; apply tracked_congr <;> simp [hside])
   · simp only []
     split
     · rename_i hbad
@@ -633,7 +698,9 @@ theorem exact_setMaxFrame (s : St) (v : Nat) (h : Inv s) (e : Exact s) :
     · intro hconf
       simp only [peerOf_snoc, peerStep, Bool.and_eq_true, decide_eq_true_eq] at hconf ⊢
       obtain ⟨_, e2, e3⟩ := e hconf.1.1
-      exact ⟨trivial, e2, e3⟩
+      refine ⟨trivial, e2, ?_⟩
+      intro j hj
+      exact e3 j (by rw [← hj]; symm; apply tracked_congr <;> simp [hside])
 
 theorem exact_step (s : St) (l : Label) (hw : l.wf = true) (h : Inv s) (e : Exact s) : Exact (step s l) := by
   cases l with
